@@ -27,117 +27,7 @@ func checkC14(c *Ctx) {
 	const ph = "pkg/phantoms"
 
 	// ---- C14.1 purity
-	r.Rule("C14.1", "nothing reachable from the selection entry points touches process-global state", 4)
-	type entry struct{ recv, name string }
-	var roots []*ssa.Function
-	for _, e := range []entry{{"PhantomIPSelector", "Select"}, {"", "SelectPhantom"}, {"", "SelectPhantomWeighted"}, {"", "SelectPhantomUnweighted"}} {
-		if f := c.fn("C14.1", ph, e.recv, e.name); f != nil {
-			roots = append(roots, f)
-		}
-	}
-	// dynamic SubnetFilter calls resolve to V4Only/V6Only
-	filters := []*ssa.Function{}
-	for _, n := range []string{"V4Only", "V6Only"} {
-		if f := c.P.Func(repoMod+"/"+ph, "", n); f != nil {
-			filters = append(filters, f)
-		}
-	}
-	for _, root := range roots {
-		seen := map[*ssa.Function][]string{}
-		var order []*ssa.Function
-		var visit func(f *ssa.Function, chain []string)
-		visit = func(f *ssa.Function, chain []string) {
-			if _, ok := seen[f]; ok {
-				return
-			}
-			if !isRepoPath(fnPkgPath(f)) || f.Blocks == nil {
-				return
-			}
-			chain = append(append([]string{}, chain...), fnName(f))
-			seen[f] = chain
-			order = append(order, f)
-			for _, g := range withAnon(f)[1:] {
-				visit(g, chain)
-			}
-			eachInstr(f, func(in ssa.Instruction) {
-				ci, ok := in.(ssa.CallInstruction)
-				if !ok {
-					return
-				}
-				if cal := ci.Common().StaticCallee(); cal != nil {
-					visit(cal, chain)
-				} else if !ci.Common().IsInvoke() {
-					if strings.HasSuffix(typeShort(ci.Common().Value.Type()), "SubnetFilter") {
-						for _, ff := range filters {
-							visit(ff, chain)
-						}
-					}
-				}
-			})
-		}
-		visit(root, nil)
-		nBad := 0
-		for _, f := range order {
-			eachInstr(f, func(in ssa.Instruction) {
-				bad := ""
-				switch x := in.(type) {
-				case ssa.CallInstruction:
-					n := calleeName(x.Common())
-					switch {
-					case strings.HasPrefix(n, "math/rand.") && n != "math/rand.New" && n != "math/rand.NewSource":
-						bad = "calls " + n + " (process-global random source)"
-					case strings.HasSuffix(n, "weightedrand.Chooser).Pick"):
-						bad = "calls weightedrand Chooser.Pick (draws from the process-global math/rand source)"
-					case n == "time.Now" || n == "time.Since":
-						bad = "calls " + n
-					case n == "os.Getenv":
-						bad = "reads the environment"
-					}
-				case *ssa.Store:
-					if g, ok := x.Addr.(*ssa.Global); ok {
-						bad = "writes package-level variable " + g.Name()
-					}
-					if fa, ok := x.Addr.(*ssa.FieldAddr); ok {
-						if g, ok := fa.X.(*ssa.Global); ok {
-							bad = "writes package-level variable " + g.Name()
-						}
-					}
-				}
-				if bad == "" {
-					// any other use of a package-level variable: only immutable ones are allowed
-					// (error sentinels; basic-typed variables never written outside init)
-					for _, op := range in.Operands(nil) {
-						g, ok := (*op).(*ssa.Global)
-						if !ok || g.Pkg == nil || !isRepoPath(g.Pkg.Pkg.Path()) {
-							continue
-						}
-						if st, isSt := in.(*ssa.Store); isSt && st.Addr == ssa.Value(g) {
-							continue // reported above
-						}
-						elem := g.Type().Underlying().(*types.Pointer).Elem()
-						if types.Implements(elem, errorIface) || types.Implements(types.NewPointer(elem), errorIface) && isErrName(g.Name()) {
-							continue
-						}
-						if _, basic := elem.Underlying().(*types.Basic); basic && !writtenOutsideInit(c.P, g) {
-							continue
-						}
-						bad = "uses package-level variable " + g.Name() + " (" + typeShort(elem) + ", shared mutable state)"
-					}
-				}
-				if bad == "" {
-					bad = writesInput(f, in)
-				}
-				if bad != "" {
-					nBad++
-					r.Bad("C14.1", fnName(f)+": "+bad, in.Pos(), fnName(f),
-						"selection reachable from "+fnName(root)+" "+bad+": repeating or running selections concurrently can change a result, so station and client stop agreeing on the phantom", seen[f]...)
-				}
-			})
-		}
-		if nBad == 0 {
-			r.OK("C14.1", fnName(root)+": reachable selection code is free of process-global effects", root.Pos(), fmt.Sprintf("%d function(s) examined through static callees and closures", len(order)))
-		}
-	}
+	checkSelectionPurity(c, "C14.1", ph)
 
 	// ---- C14.2 fixed width
 	r.Rule("C14.2", "addresses are rendered at fixed width (no net.IP(big.Int.Bytes()))", 2)
@@ -564,4 +454,123 @@ func writesInput(f *ssa.Function, in ssa.Instruction) string {
 		}
 	}
 	return ""
+}
+
+// checkSelectionPurity: selection is a function of its inputs - nothing reachable from the selection entry points
+// touches process-global state or writes into its inputs. Shared by C14.1 and C01.6 (client and station can only
+// agree for every history if neither side's result depends on earlier selections).
+func checkSelectionPurity(c *Ctx, rule, ph string) {
+	r := c.R
+	r.Rule(rule, "nothing reachable from the selection entry points touches process-global state or modifies its inputs", 4)
+	type entry struct{ recv, name string }
+	var roots []*ssa.Function
+	for _, e := range []entry{{"PhantomIPSelector", "Select"}, {"", "SelectPhantom"}, {"", "SelectPhantomWeighted"}, {"", "SelectPhantomUnweighted"}} {
+		if f := c.fn(rule, ph, e.recv, e.name); f != nil {
+			roots = append(roots, f)
+		}
+	}
+	// dynamic SubnetFilter calls resolve to V4Only/V6Only
+	filters := []*ssa.Function{}
+	for _, n := range []string{"V4Only", "V6Only"} {
+		if f := c.P.Func(repoMod+"/"+ph, "", n); f != nil {
+			filters = append(filters, f)
+		}
+	}
+	for _, root := range roots {
+		seen := map[*ssa.Function][]string{}
+		var order []*ssa.Function
+		var visit func(f *ssa.Function, chain []string)
+		visit = func(f *ssa.Function, chain []string) {
+			if _, ok := seen[f]; ok {
+				return
+			}
+			if !isRepoPath(fnPkgPath(f)) || f.Blocks == nil {
+				return
+			}
+			chain = append(append([]string{}, chain...), fnName(f))
+			seen[f] = chain
+			order = append(order, f)
+			for _, g := range withAnon(f)[1:] {
+				visit(g, chain)
+			}
+			eachInstr(f, func(in ssa.Instruction) {
+				ci, ok := in.(ssa.CallInstruction)
+				if !ok {
+					return
+				}
+				if cal := ci.Common().StaticCallee(); cal != nil {
+					visit(cal, chain)
+				} else if !ci.Common().IsInvoke() {
+					if strings.HasSuffix(typeShort(ci.Common().Value.Type()), "SubnetFilter") {
+						for _, ff := range filters {
+							visit(ff, chain)
+						}
+					}
+				}
+			})
+		}
+		visit(root, nil)
+		nBad := 0
+		for _, f := range order {
+			eachInstr(f, func(in ssa.Instruction) {
+				bad := ""
+				switch x := in.(type) {
+				case ssa.CallInstruction:
+					n := calleeName(x.Common())
+					switch {
+					case strings.HasPrefix(n, "math/rand.") && n != "math/rand.New" && n != "math/rand.NewSource":
+						bad = "calls " + n + " (process-global random source)"
+					case strings.HasSuffix(n, "weightedrand.Chooser).Pick"):
+						bad = "calls weightedrand Chooser.Pick (draws from the process-global math/rand source)"
+					case n == "time.Now" || n == "time.Since":
+						bad = "calls " + n
+					case n == "os.Getenv":
+						bad = "reads the environment"
+					}
+				case *ssa.Store:
+					if g, ok := x.Addr.(*ssa.Global); ok {
+						bad = "writes package-level variable " + g.Name()
+					}
+					if fa, ok := x.Addr.(*ssa.FieldAddr); ok {
+						if g, ok := fa.X.(*ssa.Global); ok {
+							bad = "writes package-level variable " + g.Name()
+						}
+					}
+				}
+				if bad == "" {
+					// any other use of a package-level variable: only immutable ones are allowed
+					// (error sentinels; basic-typed variables never written outside init)
+					for _, op := range in.Operands(nil) {
+						g, ok := (*op).(*ssa.Global)
+						if !ok || g.Pkg == nil || !isRepoPath(g.Pkg.Pkg.Path()) {
+							continue
+						}
+						if st, isSt := in.(*ssa.Store); isSt && st.Addr == ssa.Value(g) {
+							continue // reported above
+						}
+						elem := g.Type().Underlying().(*types.Pointer).Elem()
+						if types.Implements(elem, errorIface) || types.Implements(types.NewPointer(elem), errorIface) && isErrName(g.Name()) {
+							continue
+						}
+						if _, basic := elem.Underlying().(*types.Basic); basic && !writtenOutsideInit(c.P, g) {
+							continue
+						}
+						bad = "uses package-level variable " + g.Name() + " (" + typeShort(elem) + ", shared mutable state)"
+					}
+				}
+				if bad == "" {
+					bad = writesInput(f, in)
+				}
+				if bad != "" {
+					nBad++
+					r.Bad(rule, fnName(f)+": "+bad, in.Pos(), fnName(f),
+						"selection reachable from "+fnName(root)+" "+bad+": repeating or running selections concurrently can change a result, so station and client stop agreeing on the phantom", seen[f]...)
+				}
+			})
+		}
+		if nBad == 0 {
+			r.OK(rule, fnName(root)+": reachable selection code is free of process-global effects", root.Pos(), fmt.Sprintf("%d function(s) examined through static callees and closures", len(order)))
+		}
+	}
+
 }
